@@ -1,5 +1,5 @@
 (* Base.v — shared vocabulary of the model. *)
-From Coq Require Export List ZArith NArith Bool String Ascii Lia.
+From Coq Require Export ZArith NArith Bool String Ascii Lia List.
 Export ListNotations.
 
 Definition bytes := list N.
@@ -28,7 +28,7 @@ Fixpoint assoc {A} (k : string) (l : list (string * A)) : option A :=
   end.
 
 Definition bytes_eqb (a b : bytes) : bool :=
-  (Nat.eqb (List.length a) (List.length b)) && forallb (fun p => N.eqb (fst p) (snd p)) (combine a b).
+  (Nat.eqb (length a) (length b)) && forallb (fun p => N.eqb (fst p) (snd p)) (combine a b).
 
 Lemma bytes_eqb_refl a : bytes_eqb a a = true.
 Proof.
@@ -42,3 +42,8 @@ Proof.
   apply andb_prop in H. destruct H as [Hl H]. apply andb_prop in H. destruct H as [Hx H].
   apply N.eqb_eq in Hx. subst. f_equal. apply IH. rewrite Hl. exact H.
 Qed.
+
+(* linear-time reversal (List.rev is quadratic under evaluation) *)
+Definition frev {A} (l : list A) : list A := rev_append l [].
+Lemma frev_rev {A} (l : list A) : frev l = rev l.
+Proof. unfold frev. rewrite rev_append_rev. apply app_nil_r. Qed.
